@@ -291,6 +291,18 @@ CLAIMED.update({
     ),
 })
 
+CLAIMED.update({
+    "C08": dict(
+        level="other",
+        note="Trusted: CPython ast; CPython's socket semantics (a socket returned by accept() is blocking regardless of the listening "
+        "socket's timeout); the frozen WAIT_TABLE / SPIN_TABLE in sa/rules/c08.py. NOT decided: elapsed time and 'plus a small "
+        "margin' - no static argument bounds time; user handlers that block; the two recv-bounded findings are listed in "
+        "known_findings.json.",
+        technique="socket-timeout typestate over a hand-built CFG + call-site argument resolution for every blocking wait + frozen who-waits tables with structural discharge (ast)",
+        ref="4/C08",
+    ),
+})
+
 PENDING = "designed in DESIGN.md section 4, checker not built yet - not claimed through a stub"
 
 NOT_APPLICABLE = {
